@@ -828,3 +828,133 @@ func resultThroughHelpers(v ssa.Value) ssa.Value {
 	}
 	return v
 }
+
+// calleeCandidates resolves a call to the functions it can reach: the static callee, or - for a call through a local
+// function value - the methods/functions that value was assigned from (verify := h.verifyMessage; if b { verify =
+// h.verifyBroadcastMessage }; verify(m)). nil when some source of the value is not a function known at this site.
+func calleeCandidates(call *ssa.Call) []*ssa.Function {
+	if f := call.Call.StaticCallee(); f != nil {
+		return []*ssa.Function{f}
+	}
+	if call.Call.IsInvoke() {
+		return nil
+	}
+	var out []*ssa.Function
+	seen := map[ssa.Value]bool{}
+	var walk func(v ssa.Value) bool
+	walk = func(v ssa.Value) bool {
+		if seen[v] {
+			return true
+		}
+		seen[v] = true
+		switch x := v.(type) {
+		case *ssa.Phi:
+			for _, e := range x.Edges {
+				if !walk(e) {
+					return false
+				}
+			}
+			return true
+		case *ssa.MakeClosure:
+			fn, _ := x.Fn.(*ssa.Function)
+			if fn == nil {
+				return false
+			}
+			if strings.HasPrefix(fn.Synthetic, "bound method wrapper") {
+				if o, ok := fn.Object().(*types.Func); ok {
+					if real := fn.Prog.FuncValue(o); real != nil {
+						fn = real
+					}
+				}
+			}
+			out = append(out, fn)
+			return true
+		case *ssa.Function:
+			out = append(out, x)
+			return true
+		case *ssa.ChangeType:
+			return walk(x.X)
+		}
+		return false
+	}
+	if !walk(call.Call.Value) || len(out) == 0 {
+		return nil
+	}
+	return out
+}
+
+// callMayBe: the call reaches fn (statically, or through a local function value).
+func callMayBe(call *ssa.Call, fn *ssa.Function) bool {
+	for _, f := range calleeCandidates(call) {
+		if f == fn {
+			return true
+		}
+	}
+	return false
+}
+
+// normArgs: the arguments of the call in the callee's parameter order; for a bound method value the receiver captured
+// when the value was made comes first.
+func normArgs(call *ssa.Call) []ssa.Value {
+	if call.Call.StaticCallee() != nil || call.Call.IsInvoke() {
+		return call.Call.Args
+	}
+	var recv ssa.Value
+	seen := map[ssa.Value]bool{}
+	var walk func(v ssa.Value)
+	walk = func(v ssa.Value) {
+		if seen[v] || recv != nil {
+			return
+		}
+		seen[v] = true
+		switch x := v.(type) {
+		case *ssa.Phi:
+			for _, e := range x.Edges {
+				walk(e)
+			}
+		case *ssa.MakeClosure:
+			if fn, _ := x.Fn.(*ssa.Function); fn != nil && strings.HasPrefix(fn.Synthetic, "bound method wrapper") && len(x.Bindings) == 1 {
+				recv = x.Bindings[0]
+			}
+		case *ssa.ChangeType:
+			walk(x.X)
+		}
+	}
+	walk(call.Call.Value)
+	if recv == nil {
+		return call.Call.Args
+	}
+	return append([]ssa.Value{recv}, call.Call.Args...)
+}
+
+// edgeValueFor: when v and the function value of call are phis of one block (a queue and its verifier chosen together),
+// the operand of v on the edges where the call reaches fn; v itself otherwise.
+func edgeValuesFor(call *ssa.Call, fn *ssa.Function, v ssa.Value) []ssa.Value {
+	cp, ok1 := call.Call.Value.(*ssa.Phi)
+	vp, ok2 := v.(*ssa.Phi)
+	if !ok1 || !ok2 || cp.Block() != vp.Block() {
+		return []ssa.Value{v}
+	}
+	var out []ssa.Value
+	for k, e := range cp.Edges {
+		mc, isMC := e.(*ssa.MakeClosure)
+		if !isMC {
+			return []ssa.Value{v}
+		}
+		f, _ := mc.Fn.(*ssa.Function)
+		if f != nil && strings.HasPrefix(f.Synthetic, "bound method wrapper") {
+			if o, ok := f.Object().(*types.Func); ok {
+				if real := f.Prog.FuncValue(o); real != nil {
+					f = real
+				}
+			}
+		}
+		if f == fn {
+			out = append(out, vp.Edges[k])
+		}
+	}
+	if len(out) == 0 {
+		return []ssa.Value{v}
+	}
+	return out
+}
